@@ -122,6 +122,12 @@ inductive Err where
 def writeRTCP (c : Cfg) (st : St) (evs : List Ev) : Except Err St :=
   if st.closed then .error .closed else .ok (run c st (evs.filter (fun e => match e with | .close => false | _ => true)))
 
+/-- `SendSideBWE.Close()` with a pacer whose `Close` returns an error or not: the ack pipes are
+closed, the estimator is marked closed (`close(e.close)`) and only then the pacer is closed and
+ITS error returned — so the estimator is closed whatever the pacer answers.
+Returns (closed afterwards, "Close returned the pacer's error"). -/
+def closeG (pacerErr : Bool) : Bool × Bool := (true, pacerErr)
+
 /-! ## trace acceptance -/
 
 /-- what the harness observes after one feedback. -/
